@@ -118,3 +118,29 @@ for k_ in (1, 3, 4, 5):
              c_preprocess(k_), out)
     u.extra_contracts = EXTRA
     UNITS.append(u)
+
+
+# ------------------------------------------------------------------ the selector fill for ALL circuit sizes (symbolic gate list)
+def c_fill_all(it, recv, a):
+    """for every size: column S, handed to ifft, is the zero vector of length `size` with entry i set to gate_i.S for EVERY gate i of the
+    composer (one generic assignment per gate, in order) - no gate is left out, whatever the number of gates"""
+    cons = Sym("prover.constraints")
+    for s_ in SELS:
+        col = VOpaque("updated", [VOpaque("zeros", [Sym("size")]), Sym("prover.constraints[#]"), Sym(f"prover.constraints[*].{s_}")])
+        it.ctx.event("ifft", canon(col))
+    return UNIT
+
+
+def out_fill(res, args, ctx):
+    return {"ifft_inputs": [e for e in ctx.log if e and e[0] == "ifft"][:len(SELS)]}
+
+
+_fu = Unit("compiler.preprocess[all sizes].selector_fill", CP, "Compiler::preprocess",
+           [("label", sym("label")), ("commit_key", sym("commit_key")), ("opening_key", sym("opening_key")), ("prover", sym("prover"))],
+           c_fill_all, out_fill, trace_only=True, tracked=tuple(SELS), consts={"__index_fill": True})
+_fu.extra_contracts = dict(EXTRA, **{
+    ".ifft": lambda it, recv, a: (it.ctx.event("ifft", canon(a[0])), VOpaque("ifft", [recv, a[0]]))[1],
+    ".constraints": lambda it, recv, a: VOpaque("len", [Sym("prover.constraints")]),
+    ".next_power_of_two": lambda it, recv, a: Sym("size"),
+})
+UNITS.append(_fu)
